@@ -23,6 +23,25 @@ def norm_key(eng, desc):
     return out
 
 
+def unrecognised_keys(eng, X):
+    """MD5 inputs of this function that the extraction cannot describe as a sequence of {attribute type, an argument,
+    a 16-octet block of a buffer}: e.g. a key buffer whose content differs from iteration to iteration in a way the
+    loop summary does not retain.  When there are any, the construction as a whole is not understood and the
+    clauses about keys / XOR / chaining are reported as undecided rather than judged."""
+    bad = []
+    for st, did, d in X.md5s:
+        nk = norm_key(eng, d)
+        if not nk:
+            bad.append("empty")
+            continue
+        for p in nk:
+            if p[0] == "?":
+                bad.append(p[1])
+            elif p[0] == "block" and not (isinstance(p[3], Lin) and p[3].is_const() and p[3].c == 16):
+                bad.append("a buffer region of %r octets" % (p[3],))
+    return sorted(set(bad))
+
+
 class Extract:
     """facts about one of hide / reveal, extracted from one abstract run"""
 
